@@ -237,7 +237,7 @@ def run(ctx):
 
     maxw = ctx.pick(25, 120)
     NSH = 4
-    totals = {"mutants": 0, "accepted": 0, "live": 0}
+    totals = {"mutants": 0, "accepted": 0, "live": 0, "skipped": 0}
     nrp = []
 
     def mut_shard(k):
@@ -255,6 +255,7 @@ def run(ctx):
                 totals["mutants"] += e["mutants"]
                 totals["accepted"] += e["accepted"]
                 totals["live"] += e.get("live", 0)
+                totals["skipped"] += e.get("skipped", 0)
         # reader panics are C02's subject: recorded, not judged here
         nrp.extend(e for e in evs if e["ev"] == "readpanic")
         evs = [e for e in evs if e["ev"] != "readpanic"]
@@ -275,9 +276,9 @@ def run(ctx):
     if first_sample:
         ctx.sample({"recorded_events": first_sample[0]})
     ctx.cov["mutants"] = dict(totals, ev="mutsummary")
-    if totals["live"] * 4 < totals["accepted"] or not totals["live"]:
-        raise vlib.Infra("reader-delivered tables are vacuous: only %d of %d accepted mutants have lookups" % (
-            totals["live"], totals["accepted"]))
+    if totals["live"] * 4 < totals["accepted"] or not totals["live"] or totals["skipped"] * 4 > len(mcases):
+        raise vlib.Infra("reader-delivered tables are vacuous: only %d of %d accepted mutants have lookups, %d of %d "
+                         "subjects do not read back unmutated" % (totals["live"], totals["accepted"], totals["skipped"], len(mcases)))
     if nrp:
         ctx.notes.append("%d corrupted tables made gtab.Read panic (C02's subject), e.g. %s" % (len(nrp), nrp[0].get("site")))
 
